@@ -5,7 +5,7 @@ def plan(tier):
                 "cfg": "SuffixIndexMC_C04.cfg" if q else "SuffixIndexMC_C04_thorough.cfg",
                 "timeout": 1500, "args": ["-coverage", "1"]}],
         "families": [{"fam": "bwt", "trace": "SuffixIndexTraceBwt", "nfiles": 1, "timeout": 3000}],
-        "required_obligations": ["exhaustive_small", "text_len_1", "text_len_2", "occ_rate_1", "clone_occ_both_continue", "clone_from_occ_other_text_both_continue", "k_gt64_divides_n", "k_gt64_equals_n", "run_ge_256_occ_rate_gt_256", "alphabet_max_symbol_sweep_around_dollar", "exhaustive_raw_strings", "row_on_checkpoint_and_before", "single_checkpoint", "k64", "k65",
+        "required_obligations": ["exhaustive_small", "same_size_same_max_different_alphabets_in_one_process", "text_len_1", "text_len_2", "occ_rate_1", "clone_occ_both_continue", "clone_from_occ_other_text_both_continue", "k_gt64_divides_n", "k_gt64_equals_n", "run_ge_256_occ_rate_gt_256", "alphabet_max_symbol_sweep_around_dollar", "exhaustive_raw_strings", "row_on_checkpoint_and_before", "single_checkpoint", "k64", "k65",
                                  "k_gt64_half_boundary", "k_gt64_three_checkpoints", "k_gt64_last_partial_block",
                                  "k_gt64_absent_symbol", "absent_symbol", "invert", "multi_sentinel"],
         "rule": "one run = one (text, alphabet): suffix_array, bwt, less, one full Occ::get table (every row x every "
